@@ -121,8 +121,28 @@ impl Known {
     }
 }
 
+/// exact match, or a pattern with `*` wildcards (each matches any run of characters)
 fn sig_match(pattern: &str, sig: &str) -> bool {
-    pattern == sig
+    if !pattern.contains('*') {
+        return pattern == sig;
+    }
+    let parts: Vec<&str> = pattern.split('*').collect();
+    let mut pos = 0usize;
+    for (i, p) in parts.iter().enumerate() {
+        if p.is_empty() {
+            continue;
+        }
+        match sig[pos..].find(p) {
+            Some(k) => {
+                if i == 0 && k != 0 {
+                    return false;
+                }
+                pos += k + p.len();
+            }
+            None => return false,
+        }
+    }
+    parts.last().map(|l| l.is_empty() || sig.ends_with(l)).unwrap_or(true)
 }
 
 pub struct Ctx {
